@@ -40,6 +40,34 @@ pub fn eoi_at_tail_only(re: &Re, env: &Env) -> bool {
     }
 }
 
+/// `$` anywhere except under `*` / `+`, and at most once on any path through the regex. (A `$`
+/// need not be the last factor: `['a'-'z']+ ('\n' | $) ' '*` is an ordinary definition. What follows
+/// a `$` can only match the empty string, or nothing.)
+pub fn eoi_linear(re: &Re, env: &Env) -> bool {
+    match re {
+        Re::Eoi => true,
+        Re::Var(x) => env.get(x).map(|r| eoi_linear(r, env)).unwrap_or(true),
+        Re::Star(a) | Re::Plus(a) => !contains_eoi(a, env),
+        Re::Opt(a) => eoi_linear(a, env),
+        Re::Cat(a, b) => eoi_linear(a, env) && eoi_linear(b, env) && !(contains_eoi(a, env) && contains_eoi(b, env)),
+        Re::Alt(a, b) => eoi_linear(a, env) && eoi_linear(b, env),
+        Re::Diff(a, b) => !contains_eoi(a, env) && !contains_eoi(b, env),
+        _ => true,
+    }
+}
+
+/// In a right context only acceptance matters, so `$` may repeat and may sit under `*` / `+`; a
+/// class difference still cannot contain it.
+pub fn eoi_ok_in_ctx(re: &Re, env: &Env) -> bool {
+    match re {
+        Re::Var(x) => env.get(x).map(|r| eoi_ok_in_ctx(r, env)).unwrap_or(true),
+        Re::Star(a) | Re::Plus(a) | Re::Opt(a) => eoi_ok_in_ctx(a, env),
+        Re::Cat(a, b) | Re::Alt(a, b) => eoi_ok_in_ctx(a, env) && eoi_ok_in_ctx(b, env),
+        Re::Diff(a, b) => !contains_eoi(a, env) && !contains_eoi(b, env),
+        _ => true,
+    }
+}
+
 fn check_re(re: &Re, env: &Env, top: bool) -> Result<(), String> {
     // maximal class expressions must be non-empty and syntactically valid
     if is_class_expr(re, env) && !matches!(re, Re::Var(_)) {
@@ -174,13 +202,13 @@ pub fn check_wf(spec: &Spec) -> Result<(), String> {
                     if nullable_chars(&r.re, &env) {
                         return Err(format!("rule {} matches the empty string", r.id));
                     }
-                    if !eoi_at_tail_only(&r.re, &env) {
-                        return Err(format!("rule {}: $ not at tail", r.id));
+                    if !eoi_linear(&r.re, &env) {
+                        return Err(format!("rule {}: $ under a repetition or twice on a path", r.id));
                     }
                     if let Some(c) = &r.ctx {
                         check_re(c, &env, true)?;
-                        if !eoi_at_tail_only(c, &env) {
-                            return Err(format!("rule {}: $ not at tail of context", r.id));
+                        if !eoi_ok_in_ctx(c, &env) {
+                            return Err(format!("rule {}: $ inside a class difference of the context", r.id));
                         }
                     }
                     check_action(spec, &r.act)?;
